@@ -199,6 +199,7 @@ def run(ck):
                     ck.count('dependency-seen-missing-while-locked-by-another')
             if len(ck.samples) < 3 and len(res.trace) > 30:
                 ck.sample({'program': sc['program'], 'backend': sc['backend'], 'events': [X.ev_show(e) for e in res.trace[:30]]})
+    X.require_coverage(ck, [X.WAIT_KEY, X.DUMP_KEY], 'lock-step runs')
     b.flush()
 
 
